@@ -379,6 +379,27 @@ def run(repo: Repo, rep: Report, tier: str) -> None:
             rep.check(okd, "C13-R11", f"{al.short}: the cursor advances before every return of a pool entry", "advance dominates the return" if okd else "a return of a pool entry that does not advance the cursor", al.loc(r11))
     rep.floor("C13-R11", "pool-entry returns of the allocator", n11, 1)
 
+    # ---------------- R12 --------------------------------------------------------------
+    rep.rule("C13-R12", "a projection onto a name puts the value on that name: every literal the declaration-time simplification builds in place of `expr | \"T\"` carries the "
+             "projection's own target — the outermost one of a chain — as its signal type")
+    sp = repo.func("SemanticAnalyzer._try_simplify_signal_projection")
+    csp = __import__("fv.rules.util", fromlist=["canon"]).canon(sp)
+    target12 = f"{sp.params[1] if sp.params[0] == 'self' else sp.params[0]}.target_type"
+    n12 = 0
+    for c in calls_in(sp.node, "SignalLiteral"):
+        kw = next((k.value for k in c.keywords if k.arg == "signal_type"), None)
+        if kw is None:
+            continue
+        n12 += 1
+        t12 = csp.text(kw)
+        rep.check(t12 == target12, "C13-R12", f"_try_simplify_signal_projection: literal #{n12} carries the projection's target", t12 if t12 == target12 else
+                  f"signal_type={t12[:80]}, not {target12}: `(50 | \"signal-red\") | \"signal-B\"` is emitted on the inner name", sp.loc(c))
+    rep.floor("C13-R12", "literals built by the projection simplification", n12, 3)
+
+    # ---------------- R13 --------------------------------------------------------------
+    _borrow(repo, rep, "C15", "C15-R19", "C13-R13", "an untyped value never lands on a name the program wrote: a constant declared in a function or loop body takes its channel from its own "
+            "symbol or gets a fresh one, not from a global variable that happens to have the same name", floor=2)
+
 
 def CFG_dom(f, a, b) -> bool:
     from ..cfg import CFG
